@@ -109,8 +109,10 @@ Section Pex.
       f_equal. unfold ranks. rewrite (nth_indep _ 0 (Z.of_nat 0)) by (rewrite map_length, seq_length; lia).
       rewrite (map_nth Z.of_nat), seq_nth by lia. simpl. lia. }
     rewrite (flat_map_ext _ (fun s => pex_slot (R s) (pex_ep s) pex_npay me)) by (intros; apply Hblock).
-    unfold ranks. rewrite (pex_scan_flat (fun s => pex_slot (R s) (pex_ep s) pex_npay me) (S pex_npay) sz
-                                         (match pex_ep me with None => false | Some _ => true end) (fun s => pex_slot_length s me) (Z.to_nat P) 0).
+    unfold ranks.
+    pose proof (pex_scan_flat (fun s => pex_slot (R s) (pex_ep s) pex_npay me) (S pex_npay) sz
+                              (match pex_ep me with None => false | Some _ => true end) (fun s => pex_slot_length s me) (Z.to_nat P) 0) as Hscan.
+    change (Z.of_nat 0) with 0 in Hscan. rewrite Hscan. clear Hscan.
     replace (match pex_ep me with None => false | Some _ => true end) with hp by (unfold pex_ep; destruct hp; reflexivity).
     fold (ranks P).
     assert (Hfound : forall l, Forall (fun s => 0 <= s) l ->
@@ -128,3 +130,22 @@ Section Pex.
     destruct hp; [reflexivity|]. induction (transpose P R me) as [|x T IH]; [reflexivity|exact IH].
   Qed.
 End Pex.
+
+Lemma pex_scan_nopay_sz stride sz sz' : forall n all i, pex_scan stride sz false all n i = pex_scan stride sz' false all n i.
+Proof. induction n as [|n IH]; intros all i; [reflexivity|]. cbn [pex_scan]. rewrite (IH (skipn stride all) (i + 1)). reflexivity. Qed.
+
+(* without payload: no hypothesis besides the contract *)
+Theorem pex_round_nopay (coll : Z -> list payload -> Z -> payload) :
+  (forall (b : nat) cs r, (forall c, In c cs -> length c = (b * length cs)%nat) -> 0 <= r < Z.of_nat (length cs) ->
+     coll K_ALLTOALL cs r = flat_map (fun c => firstn b (skipn (Z.to_nat r * b) c)) cs) ->
+  forall P (R : Z -> list Z) sz0 me, 0 < P -> 0 <= me < P ->
+  run [coll K_ALLTOALL (map (fun s => flat_map (pex_slot (R s) None 0) (ranks P)) (ranks P)) me]
+      (pex_core P (R me) None sz0 (fun s g => Ret (result s g)))
+  = ([Coll K_ALLTOALL (-1) (flat_map (pex_slot (R me) None 0) (ranks P))], Some (result (transpose P R me) [])).
+Proof.
+  intros Hc P R sz0 me HP Hme.
+  pose proof (pex_round coll Hc P R HP false (fun _ _ => [0]) 1 ltac:(lia)
+                        ltac:(intros; split; [repeat constructor; unfold isbyte; lia|reflexivity]) me Hme) as H.
+  unfold pex_contrib, pex_ep, pex_npay in H. unfold pex_core in *. cbn [run] in *.
+  rewrite (pex_scan_nopay_sz 1 sz0 1). exact H.
+Qed.
